@@ -40,6 +40,12 @@ def capLoopShape : String := "evictFirstBeforeAdd"
 /-- the message constructor: "skipsExisting" = the variable that becomes Fid is drawn by a package function G and then re-drawn by `for <has>(id) { … id = G(..) … }` (no break / return) where <has> is `for _, m := range <list> { if m.Fid == id { return true } }; return false`; "none" = one draw, no loop after it -/
 def fileIdCollisionCheck : String := "skipsExisting"
 
+/-- how the method asked by the re-draw loop of the message constructor looks an id up in the loaded index: "linearScan" = `for _, m := range <recv>.<list> { if m.Fid == id { return true } }; return false` (whole list, equality on the id field, true exactly there, false after the loop) or slices.ContainsFunc / slices.IndexFunc(…) >= 0 over <recv>.<list> with that equality; "binarySearchAssumingSorted" = it calls sort.Search / sort.Find / slices.BinarySearch(Func); "unknown" = anything else -/
+def hasIDSearch : String := "linearScan"
+
+/-- the loop after the first draw of the message constructor: its condition is <recv>.<has>(id), a method of the constructor's own receiver (the mailbox whose index was loaded) asked about the id variable; its body assigns the id variable only from the generator function and has no break / return; the Message{… Fid: id …} literal is returned after the loop with the id variable untouched in between; the loader has run before the first draw (directly or through one package helper); there is no other loop after the first draw -/
+def redrawLoop : List (String × Bool) := [("condIsHasIDOfReceiver", true), ("bodyRedrawsThroughGenerator", true), ("returnsLoopId", true), ("indexLoadedBefore", true), ("noOtherLoopAfterDraw", true)]
+
 /-- the function G that draws Fid is `return P(t) + "-" + fmt.Sprintf("%04d", <-CH)` with P = `return t.Format("20060102T150405")` (one-second resolution) and CH a package-level `chan int` fed by a package function `for i := 0; ; i = (i + 1) % 10000 { c <- i }` that an init() starts with `go`: a process-wide counter that restarts at 0 with the process -/
 def idGenerator : String := "secondPlusCounterMod10000"
 
